@@ -134,7 +134,7 @@ PROPS = {
         "stages": lambda tier: _cont(12, 20000, 600_000, 10)(tier) + [
             {"scen": "heap", "env": {"focus": 12, "avoid_kf": AVOID_KF_HEAP}, "runs": 2500 if tier == "quick" else 60_000, "configs": ["plain"], "first": 40_000_000, "chunk": 25},
             {"scen": "heap", "env": {"focus": 12, "avoid_kf": AVOID_KF_HEAP}, "runs": 400 if tier == "quick" else 8_000, "configs": ["asan"], "first": 45_000_000, "chunk": 25}],
-        "rare_probes": ["heap.failed_constructor", "bad.injected", "bad.get-out-of-range", "bad.push_at-out-of-range", "bad.pop-empty", "bad.rem-absent",
+        "rare_probes": ["bad.stack-tuple-assign", "bad.stack-tuple-assign-from-filter", "bad.del-embedded", "heap.failed_constructor", "bad.injected", "bad.get-out-of-range", "bad.push_at-out-of-range", "bad.pop-empty", "bad.rem-absent",
                         "bad.set-wrong-key-type", "bad.set-wrong-value-type", "bad.get-null-key", "bad.resize-below-len",
                         "bad.resize-tree-nonzero", "bad.resize-tuple-grow", "bad.unimplemented-class"],
         "assumptions": COMMON_ASSUME + ["default (checked) build only", "Tuple rem of an absent element is only checked for 'unchanged'"],
@@ -200,7 +200,7 @@ PROPS = {
                 "ledger reports any free of a non-heap pointer and any double free. Non-trivial = >= 2 wrong deallocations injected in the run; "
                 "distinct = distinct trace hashes.",
         "stages": lambda tier: _cont(19, 3000, 300_000, 10)(tier) + _heap(19, 3000, 80_000, 10)(tier),
-        "rare_probes": ["heap.stop", "heap.del_while_stopped", "bad.dealloc-embedded", "bad.dealloc-stack-int", "bad.del_raw-stack-string", "bad.dealloc-static-type",
+        "rare_probes": ["bad.assign-stack-tuple", "bad.assign-stack-tuple-from-filter", "heap.stop", "heap.del_while_stopped", "bad.dealloc-embedded", "bad.dealloc-stack-int", "bad.del_raw-stack-string", "bad.dealloc-static-type",
                         "bad.destruct-stack-tuple", "bad.pop_at-stack-tuple", "bad.resize-stack-string"],
         "assumptions": ["default (checked) build only"],
     },
@@ -219,7 +219,7 @@ PROPS = {
             {"scen": "exc", "env": {}, "runs": 40000 if tier == "quick" else 2_000_000, "configs": ["plain"], "timeout": 30},
             {"scen": "exc", "env": {}, "runs": 4000 if tier == "quick" else 200_000, "configs": ["asan"], "first": 10_000_000, "timeout": 30},
         ],
-        "rare_probes": ["exc.throw_twin", "exc.show_with_exception", "exc.destructor_with_exception", "exc.throw_at_collection_point", "exc.garbage_objects", "exc.outer_completes_after_inner_handled", "exc.throw_in_handler", "exc.lexical_nesting", "exc.lexical_nesting3",
+        "rare_probes": ["exc.filter_cmp_with_try", "exc.throw_twin", "exc.show_with_exception", "exc.destructor_with_exception", "exc.throw_at_collection_point", "exc.garbage_objects", "exc.outer_completes_after_inner_handled", "exc.throw_in_handler", "exc.lexical_nesting", "exc.lexical_nesting3",
                         "exc.throw_from_library", "exc.uncaught_programs", "exc.thread_programs"],
         "assumptions": ["return/goto out of a try block and signals are outside the workload", "the model does not look at messages"],
     },
@@ -242,7 +242,7 @@ PROPS = {
             # fault enumeration proper: every fault kind at every operation of short base plans (96 members per family)
             {"scen": "files", "env": {"enum": 1}, "runs": 96 * (60 if tier == "quick" else 3000), "configs": ["plain"], "first": 60_000_000, "chunk": 96},
         ],
-        "rare_probes": ["file.print_long_piece", "file.reopen", "file.op_after_close", "file.with", "file.del", "file.scan", "file.read_to_eof", "file.seek_origin0",
+        "rare_probes": ["file.seek_on_append_stream", "file.print_long_piece", "file.reopen", "file.op_after_close", "file.with", "file.del", "file.scan", "file.read_to_eof", "file.seek_origin0",
                         "file.seek_origin1", "file.seek_origin2", "io.fault_fired", "io.fault_raised_ioerror", "io.close_fault", "io.short_read"],
         "assumptions": ["glibc stdio over fopencookie is the trusted C library view", "a legal short write that stdio retries cannot be produced through fopencookie and is not claimed",
                         "after an injected fault the content of that file and the position of that stream are no longer compared"],
